@@ -230,7 +230,7 @@ def st_cases():
 
 def plan(tier, seed):
     if tier == "quick":
-        specs = [{"kind": "tables", "examples": 16, "seed": seed * 1000 + k} for k in range(14)]
+        specs = [{"kind": "tables", "examples": 50, "seed": seed * 1000 + k} for k in range(14)]
         specs += [{"kind": "oversize", "cases": [["chains", 63]]}, {"kind": "oversize", "cases": [["chains", 62], ["residues", 10000]]}]
     else:
         specs = [{"kind": "tables", "examples": 320, "seed": seed * 1000 + k} for k in range(14)]
